@@ -65,25 +65,25 @@ PROPS = {
                 partial="rounding of re-ordered sums is outside the theorem over R (monitor tolerance 1e-9 on the natural scale)"),
     "C05": dict(corr=[("rate", {}, {"exc", "mu"}, 3600), ("gauss", {}, ALL, 1800)], monitor=True, mon_budget=4000,
                 rule="valid games incl. 4-10 sigma mismatches, all outcomes of two-team games, place exchanges; non-trivial = as C01",
-                partial="binary64 rounding of the direction clauses is outside the theorems over R"),
+                partial="in binary64 proved without slack: Bradley-Terry first/last alone (sign of omega, direction of mu); the other direction clauses and kinds in binary64 are decided by the monitor"),
     "C06": dict(corr=[("rate", {}, {"exc", "sigma"}, 3600)], monitor=True, mon_budget=4000,
                 rule="valid games x tau x limit_sigma (model-level and per-call), and league histories with ratings fed back; non-trivial = as C01",
-                partial="finiteness and the bound in binary64 are decided by the monitor"),
+                partial="in binary64 proved without slack (given no overflow): sigma' <= inflated sigma and the limit cap for whole BTF/BTP/PL games and all-tied TM games; TM win/loss pairs in binary64 (sign of w) and absence of overflow are decided by the monitor"),
     "C07": dict(corr=[("rate", {}, {"exc", "mu"}, 3600)], monitor=True, mon_budget=4000,
                 rule="valid games incl. multi-way ties; non-trivial = as C01",
                 partial="'to floating-point accuracy' is decided by the monitor with a tolerance derived from the observation noise"),
     "C08": dict(corr=[("rate", {"max_size": 16}, {"exc"}, 2400), ("predict", {}, {"exc", "value"}, 1800)], monitor=True, mon_budget=4000,
                 rule="valid-domain corners and interior, beta over six decades, 16-player teams, sigma = 0 with tau > 0; non-trivial = as C01",
-                partial="finiteness in binary64 is outside R: monitor"),
+                partial="in binary64 proved: every divisor non-zero, every sqrt argument >= 0 (no ZeroDivisionError / math domain error); absence of overflow in binary64 is decided by the monitor"),
     "C09": dict(corr=[("predict", {"ops": ("pwin",)}, ALL, 2700)], monitor=True, mon_budget=3200,
                 rule="predict_win on 2..8 teams; non-trivial = more than two teams or a multi-player team",
-                partial="rounding slack in sum-to-one / monotonicity decided by the monitor"),
+                partial="in binary64 proved: exact 1/2 for two identical teams, every value a finite double in [0,1]; rounding slack in sum-to-one / monotonicity decided by the monitor"),
     "C10": dict(corr=[("predict", {"ops": ("pdraw",)}, ALL, 2700)], monitor=True, mon_budget=3200,
                 rule="predict_draw on 2..8 teams; non-trivial = more than two teams or a multi-player team",
-                partial="rounding decided by the monitor"),
+                partial="in binary64 proved: finite, >= 0, <= 1 for n >= 3; the two-team upper bound and monotonicity in binary64 are decided by the monitor"),
     "C11": dict(corr=[("predict", {"ops": ("prank",)}, ALL, 2700), ("order", {}, ALL, 900)], monitor=True, mon_budget=3200,
                 rule="predict_rank on 2..8 teams incl. exactly identical teams; non-trivial = more than two teams or a multi-player team",
-                partial="the 1e-9 sum with predict_draw in binary64 is decided by the monitor"),
+                partial="in binary64 proved: probabilities finite in [0,1] and every rank clause (order, ties, best = 1, bounds) end to end; the 1e-9 sum with predict_draw in binary64 is decided by the monitor"),
     "C12": dict(corr=[("predict", {}, ALL, 2700)], monitor=True, mon_budget=2000,
                 rule="all three predictions against a 60-digit evaluation of the closed forms; non-trivial = as C09",
                 partial="the 1e-9 absolute agreement of the binary64 evaluation is decided by the monitor"),
@@ -98,10 +98,10 @@ PROPS = {
                 partial=""),
     "C16": dict(corr=[("rate", {}, ALL, 2400), ("predict", {}, ALL, 1500)], monitor=True, mon_budget=3200,
                 rule="games rescaled by 10^U(-3,3) and shifted within range; non-trivial = as C01",
-                partial="floating-point accuracy of the rescaled results is decided by the monitor"),
+                partial="under rounding (FLX-53) proved exact for power-of-two factors; other factors and the shift law under rounding are decided by the monitor at 1e-9"),
     "C17": dict(corr=[("gauss", {}, ALL, 9000)], monitor=True, mon_budget=12000,
                 rule="x dense in [-40,40] incl. neighbourhoods of every guard threshold, t log-dense in [1e-8,1e-2]; non-trivial = x != 0",
-                partial="every binary64 accuracy figure (1e-6, 1e-12, the rounding terms, 20t) is decided by the monitor against a 60-digit reference; the theorems over R cover ranges, the exact branch and the asymptotic bounds"),
+                partial="every binary64 accuracy figure (1e-6, 1e-12, the rounding terms, 20t) is decided by the monitor against a 60-digit reference; the theorems over R cover ranges, the exact branch and the asymptotic bounds; in binary64 proved from range/sign premises on libm: wt in [0,1], v >= 0, the guard branches"),
     "C18": dict(corr=[("ops", {}, ALL, 4500)], monitor=True, mon_budget=6000,
                 rule="five rating classes x six operators x pairs incl. equal ordinals with different (mu, sigma), zeros, negatives, foreign operands; all cases non-trivial",
                 partial=""),
